@@ -30,7 +30,8 @@ RULE = ("E3/E1 per entry point (BF3 reader, BEC2 reader x decryptor sets {none, 
         "(and pair) of C05. Oracle: returns, or raises a FormatError / ValueError subclass; any other type is a violation fingerprinted by "
         "(entry point, type, raising function); 30 s watchdog; snapshot of module-level state of bec2format.* and the plug-in equal before and "
         "after every chunk. Distinct = distinct (entry point, input); non-trivial = the input differs from the valid artefact."
-        " ('tags', id, value form, length, framing): reference-built valid files whose directory carries every tag id with ten value forms; the BF2 name alphabet is the hand-written list plus every identifier-like string literal of the importer's module (from its AST), in three positions.")
+        " ('tags', id, value form, length, framing): reference-built valid files whose directory carries every tag id with ten value forms; the BF2 name alphabet is the hand-written list plus every identifier-like string literal of the importer's module (from its AST), in three positions."
+        " ('long', entry, i): long probes (long words, runs of one character class, repeated grammar fragments x tails that make a pattern back off) under the watchdog; decryptor sets also None and a one-shot iterator.")
 ASSUMPTIONS = [
     "allowed exception types: subclasses of bec2format.error.FormatError and of ValueError (includes UnicodeDecodeError, binascii.Error)",
     "the hang watchdog is 30 s per input (normal parses take < 10 ms)",
